@@ -152,3 +152,61 @@ pub open spec fn it_answers(it: RemappedFrameIter) -> Seq<AFrame> {
             else { by_params(abs_members(cache.string_bytes@, members.remaining()), aframe(frame)) },
     }
 }
+
+// ---- lookup lemmas: sortedness makes the comparators monotone; Equal means "same name" ----
+pub proof fn lemma_member_cmp(sb: Seq<u8>, ms: Seq<raw::Member>, name: Seq<char>)
+    requires members_sorted(sb, ms),
+    ensures
+        forall|i: int, j: int| 0 <= i < j < ms.len() ==> ord_rank(#[trigger] member_cmp(sb, ms[i], name)) <= ord_rank(#[trigger] member_cmp(sb, ms[j], name)),
+        forall|i: int| 0 <= i < ms.len() ==> ((#[trigger] member_cmp(sb, ms[i], name) == Ordering::Equal) <==> tbl(sb, ms[i].obfuscated_name_offset) == Some(name)),
+{
+    assert forall|i: int, j: int| 0 <= i < j < ms.len() implies ord_rank(#[trigger] member_cmp(sb, ms[i], name)) <= ord_rank(#[trigger] member_cmp(sb, ms[j], name)) by {
+        let ni = member_name(sb, ms[i]); let nj = member_name(sb, ms[j]);
+        axiom_seq_cmp_total(nj, name); axiom_seq_cmp_total(ni, name); axiom_seq_cmp_total(ni, nj);
+        if seq_cmp(nj, name) != Ordering::Greater { axiom_seq_cmp_trans(ni, nj, name); }
+    }
+    assert forall|i: int| 0 <= i < ms.len() implies ((#[trigger] member_cmp(sb, ms[i], name) == Ordering::Equal) <==> tbl(sb, ms[i].obfuscated_name_offset) == Some(name)) by {
+        axiom_seq_cmp_total(member_name(sb, ms[i]), name);
+    }
+}
+
+pub proof fn lemma_member_cmp2(sb: Seq<u8>, ms: Seq<raw::Member>, name: Seq<char>, params: Seq<char>)
+    requires members_sorted2(sb, ms),
+    ensures
+        forall|i: int, j: int| 0 <= i < j < ms.len() ==> ord_rank(#[trigger] member_cmp2(sb, ms[i], name, params)) <= ord_rank(#[trigger] member_cmp2(sb, ms[j], name, params)),
+        forall|i: int| 0 <= i < ms.len() ==> ((#[trigger] member_cmp2(sb, ms[i], name, params) == Ordering::Equal)
+            <==> (tbl(sb, ms[i].obfuscated_name_offset) == Some(name) && member_params(sb, ms[i]) == params)),
+{
+    assert forall|i: int, j: int| 0 <= i < j < ms.len() implies ord_rank(#[trigger] member_cmp2(sb, ms[i], name, params)) <= ord_rank(#[trigger] member_cmp2(sb, ms[j], name, params)) by {
+        let ni = member_name(sb, ms[i]); let nj = member_name(sb, ms[j]);
+        let pi = member_params(sb, ms[i]); let pj = member_params(sb, ms[j]);
+        axiom_seq_cmp_total(nj, name); axiom_seq_cmp_total(ni, name); axiom_seq_cmp_total(ni, nj);
+        axiom_seq_cmp_total(pj, params); axiom_seq_cmp_total(pi, params); axiom_seq_cmp_total(pi, pj);
+        if seq_cmp(nj, name) != Ordering::Greater { axiom_seq_cmp_trans(ni, nj, name); }
+        if seq_cmp(ni, nj) == Ordering::Equal && seq_cmp(pj, params) != Ordering::Greater { axiom_seq_cmp_trans(pi, pj, params); }
+    }
+    assert forall|i: int| 0 <= i < ms.len() implies ((#[trigger] member_cmp2(sb, ms[i], name, params) == Ordering::Equal)
+            <==> (tbl(sb, ms[i].obfuscated_name_offset) == Some(name) && member_params(sb, ms[i]) == params)) by {
+        axiom_seq_cmp_total(member_name(sb, ms[i]), name);
+        axiom_seq_cmp_total(member_params(sb, ms[i]), params);
+    }
+}
+
+pub proof fn lemma_class_unique(c: ProguardCache, i: int, j: int, name: Seq<char>)
+    requires classes_sorted(c.string_bytes@, c.classes@), has_class(c, i, name), has_class(c, j, name),
+    ensures i == j,
+{
+    axiom_seq_cmp_total(name, name);
+}
+
+// [p, q) is exactly the set of members with obfuscated name `name` (C01: "every entry of that class and method")
+pub open spec fn is_block(sb: Seq<u8>, ms: Seq<raw::Member>, p: int, q: int, name: Seq<char>) -> bool {
+    0 <= p <= q <= ms.len()
+    && forall|k: int| 0 <= k < ms.len() ==> ((p <= k < q) <==> tbl(sb, (#[trigger] ms[k]).obfuscated_name_offset) == Some(name))
+}
+// same for (name, params) in the by-params section (C03)
+pub open spec fn is_block2(sb: Seq<u8>, ms: Seq<raw::Member>, p: int, q: int, name: Seq<char>, params: Seq<char>) -> bool {
+    0 <= p <= q <= ms.len()
+    && forall|k: int| 0 <= k < ms.len() ==> ((p <= k < q) <==>
+        (tbl(sb, (#[trigger] ms[k]).obfuscated_name_offset) == Some(name) && member_params(sb, ms[k]) == params))
+}
